@@ -550,18 +550,24 @@ def split_context(n):
     if items:
         first = strip_groups(items[0])
         cands = first[1] if first[0] == "alt" else (first,)
-        if all(c[0] == "look" and c[1] == "behind" and not c[2] for c in cands):
+        if all((c[0] == "look" and c[1] == "behind" and not c[2]) or c[0] == "bol" for c in cands):
             left = Context()
             for c in cands:
-                _ctx_from_look(c[3], left, "left")
+                if c[0] == "bol":
+                    left.bol = True
+                else:
+                    _ctx_from_look(c[3], left, "left")
             items = items[1:]
     if items:
         last = strip_groups(items[-1])
         cands = last[1] if last[0] == "alt" else (last,)
-        if all(c[0] == "look" and c[1] == "ahead" and not c[2] for c in cands):
+        if all((c[0] == "look" and c[1] == "ahead" and not c[2]) or c[0] in ("eol", "eos") for c in cands):
             right = Context()
             for c in cands:
-                _ctx_from_look(c[3], right, "right")
+                if c[0] in ("eol", "eos"):
+                    right.bol = True
+                else:
+                    _ctx_from_look(c[3], right, "right")
             items = items[:-1]
     return left, cat(*items), right
 
